@@ -389,6 +389,14 @@ class SymBool:
     def __init__(self, t):
         self.t = t
 
+    def __array_function__(self, func, types, args, kwargs):
+        from . import arrays
+
+        return arrays.array_function(func, types, args, kwargs)
+
+    def sum(self, *a, **k):
+        return self._as_int()
+
     def __bool__(self):
         c = Ctx.current
         if c is None:
